@@ -13,6 +13,7 @@ RULE = ('one evaluation = one driver life in which a user object calls file efun
         'while the master answers each valid_read/valid_write from a seeded script (deny, allow, rewrite to a legal or hostile path, '
         'junk value, raise an error). Every libc file call made during an efun is checked at the file seam. non-trivial = a hostile '
         'path or a non-trivial master answer was involved; distinct = distinct (efun, path class, answer kind, outcome).')
+RULE += (" Later additions: the files that hostile inherit/include names point at exist above the mudlib (inside the run's private directory).")
 COMPONENTS = {'real': ['lib/efuns/file_utils.c', 'lib/efuns/file.c', 'lib/lpc/object.c save/restore', 'lib/efuns/dumpstat.c', 'lib/efuns/dump_prog.c', 'lib/lpc/lex.c include handling', 'src/simulate.c load_object'],
               'stub': ['file layer (pass-through to a scratch mudlib, every call logged)', 'kernel sockets/clock/timer (simulated)']}
 ASSUMPTIONS = ['paths derived from an approved path by appending (directory entries of an approved directory, ".tmp" next to an approved save file) count as approved',
